@@ -323,6 +323,10 @@ def c20_structure(c, tier):
     c.oblige(bool(btids), "anchor-missing|iter::Bytes", {"rule": "anchor-missing", "detail": "type iter::Bytes not found"})
     if btids:
         names = [f["name"] for f in prog.types[btids[0]]["variants"][0]["fields"]]
+        from engine.absm import bytes_roles
+        roles = bytes_roles(prog)
+        c.oblige(roles is not None, "anchor-missing|Bytes-pointers", {"rule": "anchor-missing", "detail": "the three pointers of the cursor type could not be identified"})
+        cursor_idx = roles["cursor"] if roles else -1
         for i in seen.values():
             b = i["body"]
             if not b:
@@ -337,7 +341,7 @@ def c20_structure(c, tier):
                         if pe[0] == "deref":
                             tid = t["to"]
                         elif pe[0] == "field":
-                            if tid in btids and names[pe[1]] == "cursor" and pe is s["p"]["pr"][-1]:
+                            if tid in btids and pe[1] == cursor_idx and pe is s["p"]["pr"][-1]:
                                 writers.add(i["npath"])
                             tid = pe[2]
                         elif pe[0] in ("index", "cidx"):
